@@ -17,8 +17,8 @@
 (***************************************************************************)
 EXTENDS Integers, Sequences, FiniteSets, TLC
 CONSTANTS MaxVer, MaxOps, HashCovers
-VARIABLES modelVer,   \* version of the model definition in the source tree
-          hashVer,    \* version as seen by the checksum
+VARIABLES modelVer,   \* content of the model definition in the source tree (an identifier of its equation strings)
+          hashVer,    \* checksum of that content
           disk,       \* the generated file
           loaded,     \* version of the code the last System executes (0 = none)
           reported,   \* the last System() reported stale code
@@ -31,9 +31,11 @@ File(v, h) == [kind |-> "file", ver |-> v, hv |-> h]
 Init == /\ modelVer = 1 /\ hashVer = 1 /\ disk = File(1, 1) /\ loaded = 0 /\ reported = FALSE /\ raised = FALSE
         /\ nops = 0 /\ lastOp = "none"
 Op(name) == nops < MaxOps /\ nops' = nops + 1 /\ lastOp' = name
-Edit == /\ Op("edit") /\ modelVer < MaxVer /\ modelVer' = modelVer + 1
-        /\ hashVer' = IF HashCovers THEN hashVer + 1 ELSE hashVer
-        /\ UNCHANGED <<disk, loaded, reported, raised>>
+(* the definition becomes another one (content c); going back to an earlier content gives the earlier checksum *)
+Hash(c) == IF HashCovers THEN c ELSE 1
+EditTo(c) == /\ Op("edit") /\ c # modelVer /\ modelVer' = c /\ hashVer' = Hash(c)
+             /\ UNCHANGED <<disk, loaded, reported, raised>>
+Edit == \E c \in 1..MaxVer : EditTo(c)
 Prepare == /\ Op("prepare") /\ disk' = File(modelVer, hashVer) /\ loaded' = modelVer /\ reported' = FALSE /\ raised' = FALSE
            /\ UNCHANGED <<modelVer, hashVer>>
 (* System(): import the package, compare checksums, regenerate or report *)
